@@ -206,3 +206,55 @@ def check_r4(facts, rep, crate, bodies):
             else:
                 rep.bad(rid, "%s/consume-amount" % b.path, where, "consume() amount `%s` is not the length of the chunk just appended" % fmt(amt))
     rep.floor(rid, "consume sites after credit take", n, 2)
+    # one unit of credit per Push frame; local EOF -> Finish is not credit-gated
+    m = 0
+    for b in bodies:
+        tr = Tracer(facts, b)
+        tcalls = [bj for bj, t in b.calls() if callee(t) and ((callee(t).get("res") or callee(t)["dp"]) in takes)]
+        if not tcalls:
+            continue
+        pushes = set(bj for bj, t in b.calls() if callee(t) and callee(t)["name"] == "new_push")
+        fins = [bj for bj, t in b.calls() if callee(t) and _sends_finish(facts, crate, callee(t))]
+        if fins:
+            m += 1
+            free = b.reachable_from(0, cut=set(tcalls))
+            ungated = [fc for fc in fins if fc in free]
+            if ungated:
+                rep.ok(rid, "%s/finish-not-gated-on-credit" % b.path, "%s (%s)" % (loc_str(b.term(ungated[0])["loc"]), b.path),
+                       "the local-EOF Finish call is reachable without passing a credit take")
+            else:
+                rep.bad(rid, "%s/finish-gated-on-credit" % b.path, "%s (%s)" % (loc_str(b.term(fins[0])["loc"]), b.path),
+                        "every Finish-sending call of the local->mux direction lies behind a credit take (%s): with the send window "
+                        "exhausted the local side's EOF waits for an Acknowledge that may never come instead of being propagated as a half-close"
+                        % loc_str(b.term(tcalls[0])["loc"]))
+        FAIL = ("Pending", "None", "Break", "Err")
+        for tc in tcalls:
+            m += 1
+            where = "%s (%s)" % (loc_str(b.term(tc)["loc"]), b.path)
+            # forward walk over the success edges of every switch derived from this take
+            seen, st, leak = set(), [x for x in b.succ[tc] if not b.blocks[x]["cleanup"]], None
+            while st and leak is None:
+                x = st.pop()
+                if x in seen or x in pushes:
+                    continue
+                seen.add(x)
+                t = b.term(x)
+                if t["k"] == "Return" or x == tc:
+                    leak = x
+                    break
+                g = guard_at(facts, b, tr, x)
+                for y in b.succ[x]:
+                    if b.blocks[y]["cleanup"]:
+                        continue
+                    if g is not None and g.kind == "discr" and derives_from_call(g.pred, tc):
+                        val = [v for sb, v in g.edges if sb == y]
+                        if val and all(v in FAIL for v in val):
+                            continue
+                    st.append(y)
+            if leak is not None:
+                rep.bad(rid, "%s/credit-without-push" % b.path, where,
+                        "a unit of send credit taken here can reach %s without a Push frame being built: credit is consumed "
+                        "for something that is not a frame sent" % ("the end of the poll" if b.term(leak)["k"] == "Return" else "the next take"))
+            else:
+                rep.ok(rid, "%s/credit-implies-push" % b.path, where, "every success path after the credit take builds a Push frame")
+    rep.floor(rid, "credit/Finish ordering obligations in the bridge", m, 2)
